@@ -502,7 +502,8 @@ class UTxO(ArrayCBORSerializable):
         return pformat(vars(self))
 
     def __hash__(self):
-        return hash(blake2b(self.input.to_cbor() + self.output.to_cbor(), 32))
+        # Must be consistent with __eq__, which ignores the wire form of the output
+        return hash(self.input)
 
 
 class Withdrawals(DictCBORSerializable):
